@@ -87,12 +87,32 @@ def _call(name, basis, G0, mk):
         from gbasis.evals.eval_deriv import evaluate_deriv_basis
         cols = [evaluate_deriv_basis(basis, mk.array([G0["P"]]), np.array(o))[:, 0] for o in VEC]
         return np.stack([np.asarray(c).view(np.ndarray) for c in cols], axis=-1)
+    if name in FIELDS:
+        import gbasis.evals.density as dn
+        import gbasis.evals.stress_tensor as st
+        Pm, pts = mk.array(G0["Pm"]), mk.array([G0["P"]])
+        if name == "dgrad":
+            return dn.evaluate_density_gradient(Pm, basis, pts)[0]
+        if name == "lap":
+            return np.asarray(dn.evaluate_density_laplacian(Pm, basis, pts)).view(np.ndarray)[0:1]
+        if name == "dhess":
+            return dn.evaluate_density_hessian(Pm, basis, pts)[0]
+        if name == "stress":
+            return st.evaluate_stress_tensor(Pm, basis, pts, alpha=0.5, beta=1)[0]
+        if name == "force":
+            return st.evaluate_ehrenfest_force(Pm, basis, pts, alpha=0.5, beta=1)[0]
     raise KeyError(name)
 
 
+# scalar / vector / tensor fields built from a density matrix (no basis index left): the density matrix of the moved
+# system is the free symbol P', the original system carries P = D^T P' D
+FIELDS = {"dgrad": "vector", "lap": "scalar", "dhess": "tensor2", "stress": "tensor2", "force": "vector"}
+
 KIND = {"d3": "tensor3", "quadrupole": "tensor2", "overlap": "scalar", "kinetic": "scalar", "dipole": "vector", "momentum": "vector", "angmom": "pseudo",
         "point_charge": "scalar", "eri": "scalar", "eval": "scalar", "grad": "vector"}
+KIND.update(FIELDS)
 NIX = {"d3": 1, "quadrupole": 2, "overlap": 2, "kinetic": 2, "dipole": 2, "momentum": 2, "angmom": 2, "point_charge": 2, "eri": 4, "eval": 1, "grad": 1}
+NIX.update({k: 0 for k in FIELDS})
 
 
 def rep_matrix(ops, l, R):
@@ -205,14 +225,19 @@ class Motion(Case):
         p = self.params
         specs = [shell_spec(mk, "ABCD"[i], l, K, M) for i, (l, K, M) in enumerate(zip(p["ls"], p["Ks"], p["Ms"]))]
         R, d, det = _rot(mk, p)
+        Pm = None
+        if p["module"] in FIELDS:
+            from .c06 import sym_matrix
+            n = sum(cm.nfun(l, t) * M for l, t, M in zip(p["ls"], p["types"], p["Ms"]))
+            Pm = sym_matrix(mk, n, name="W")
         return dict(specs=specs, R=R, d=d, det=det, C=[mk.var("C" + x) for x in "xyz"], P=[mk.var("P" + x) for x in "xyz"],
-                    q=[mk.var("q0")])
+                    q=[mk.var("q0")], Pm=Pm)
 
     def code(self, I, mk):
         p = self.params
         R, d = I["R"], I["d"]
         moved = [dict(s, A=_apply(R, d, s["A"])) for s in I["specs"]]
-        G1 = dict(C=_apply(R, d, I["C"]), P=_apply(R, d, I["P"]), q=I["q"])
+        G1 = dict(C=_apply(R, d, I["C"]), P=_apply(R, d, I["P"]), q=I["q"], Pm=I["Pm"])
         basis = cm.basis_from(mk, moved, p["types"])
         return {"A": _call(p["module"], basis, G1, mk)}
 
@@ -221,13 +246,15 @@ class Motion(Case):
         mod = p["module"]
         basis = cm.basis_from(mk, I["specs"], p["types"])
         G0 = dict(C=I["C"], P=I["P"], q=I["q"])
+        D = full_rep(ops, I["specs"], p["types"], I["R"])
+        if mod in FIELDS:
+            G0["Pm"] = np.dot(np.dot(D.T, np.array(I["Pm"], dtype=object)), D)
         A = np.asarray(_call(mod, basis, G0, mk)).view(np.ndarray)
         if A.dtype != object:
             A = A.astype(object)
         if mod == "angmom" and p["motion"][0] in ("trans",) or (mod == "angmom" and p.get("shift")):
             # L' = R L + d x (R p)
             Pm = np.asarray(_call("momentum", basis, G0, mk)).view(np.ndarray)
-        D = full_rep(ops, I["specs"], p["types"], I["R"])
         for ax in range(NIX[mod]):
             A = np.moveaxis(np.tensordot(D, A, (1, ax)), 0, ax)
         kind = KIND[mod]
@@ -320,6 +347,14 @@ def cases(tier, seed=0):
     perm, signs = SIGNED_PERMS[13]
     out.append(Motion(module="d3", motion=["perm", list(perm), list(signs)], **sp))
     out.append(Motion(module="overlap", motion=["trans"], **mix))
+    # fields built from a (non-idempotent, symbolic) density matrix: gradient, Laplacian, Hessian, stress tensor, force
+    s_p = dict(ls=[0, 1], types="cc", Ks=[1, 1], Ms=[1, 1])
+    for k, fld in enumerate(FIELDS):
+        out.append(Motion(module=fld, motion=["trans"], **s_p))
+        out.append(Motion(module=fld, motion=["rot", k % 3], **s_p))
+        perm, signs = SIGNED_PERMS[5 + 9 * k]
+        out.append(Motion(module=fld, motion=["perm", list(perm), list(signs)], ls=[1, 2], types="sc", Ks=[1, 1], Ms=[1, 1]))
+        out.append(Motion(module=fld, motion=["rotq", (k + 1) % 3, 1, 2], ls=[1, 1], types="sc", Ks=[1, 1], Ms=[1, 1]))
     # all 48 signed axis permutations
     for idx, (perm, signs) in enumerate(SIGNED_PERMS):
         mo = ["perm", list(perm), list(signs)]
